@@ -84,6 +84,8 @@ def run_lib(pid, tier):
             res.cov["samples"].append({"history": json.loads(open(path).readlines()[min(1500, n - 1)])})
     if pid == "C18":
         search_part(res, work, tier)
+    if pid == "C20":
+        arena_part(res, work, tier)
     res.cov["traces_validated_against_impl"] = total
     res.cov["evaluations"] = total
     res.cov["distinct_nontrivial"] = total
@@ -135,6 +137,57 @@ def search_part(res, work, tier):
         res.violation(p, "query %r on %d notes: %s" % (e["query"], e["notes"], json.dumps(v["bad"])[:200]))
     res.cov["search_queries_judged"] = len(events)
     res.cov["search_listing_sizes"] = sorted({len(e["all"]) for e in events})
+
+
+def arena_part(res, work, tier):
+    """C20: Arena.tla (builder / delete_branch / patch, implementation-shaped) model-checked, its slips rejected, and the
+    real arena validated against it node by node after every write of every Gen_Arena history"""
+    vh = build_harness()
+    r = tlc("MC_Arena.tla", "MC_Arena.cfg" if tier == "quick" else "MC_Arena_thorough.cfg", os.path.join(work, "mc_arena"), workers=4,
+            timeout=1800, coverage=True, heap="6g")
+    if not tlc_ok(r):
+        res.violation(save_replay(work, "C20_arena_design", {"tlc_output": r["out"][-6000:]}), "TLC: Arena.tla violates the forest properties")
+    res.add_tlc("MC_Arena", r)
+    for cfg in ("MC_Arena_stop.cfg", "MC_Arena_reuse.cfg"):
+        rr = tlc("MC_Arena.tla", cfg, os.path.join(work, "mc_" + cfg), workers=2, timeout=600)
+        if "is violated" not in rr["out"]:
+            raise ToolError(cfg + " no longer fails: the spec lost its teeth")
+    cfg = "Gen_Arena_quick.cfg" if tier == "quick" else "Gen_Arena_thorough.cfg"
+    g = tlc("Gen_Arena.tla", cfg, os.path.join(work, "gen_arena"), workers=4, timeout=1800, heap="8g")
+    res.add_tlc("gen:" + cfg, g)
+    hist = os.path.join(work, "arena_hist.ndjson")
+    n = write_prints(g["out"], "HIST", hist)
+    if not n:
+        raise ToolError("Gen_Arena produced nothing:\n" + g["out"][-2000:])
+    shards = 8
+    evs = [os.path.join(work, "arena_ev.%d.ndjson" % i) for i in range(shards)]
+    for rc, out in parallel([[vh, "arena-replay", hist, evs[i], "--shard", "%d/%d" % (i, shards)] for i in range(shards)], 1800):
+        if rc != 0:
+            raise ToolError("arena-replay failed: " + out[-2000:])
+
+    def judge(i):
+        r = tlc("Trace_Arena.tla", "Trace_Arena.cfg", os.path.join(work, "tra_%d" % i), workers=1, timeout=3000, env={"TRACE": evs[i]},
+                trace_mode=True, heap="3g")
+        if '"ACCEPTED"' not in r["out"]:
+            raise ToolError("Trace_Arena did not consume %s:\n%s" % (evs[i], r["out"][-3000:]))
+        return i, prints(r["out"], "VERDICT")
+
+    lines = 0
+    reported = set()
+    with concurrent.futures.ThreadPoolExecutor(max_workers=4) as ex:
+        for i, vs in ex.map(judge, range(shards)):
+            lines += sum(1 for _ in open(evs[i]))
+            for v in vs:
+                if v["hist"] in reported:
+                    continue
+                reported.add(v["hist"])
+                ops = [json.loads(l) for l in open(evs[i]) if '"hist":%d,' % v["hist"] in l]
+                small = [{k: e.get(k) for k in ("ev", "k", "md")} for e in ops]
+                p = save_replay(work, "C20_arena_%d" % v["hist"], {"property": "C20", "reasons": v["bad"][:6], "step": v["step"], "calls": small})
+                res.violation(p, "arena after %s step %d of history %d differs from Arena.tla: %s" % (v["ev"], v["step"], v["hist"], json.dumps(v["bad"])[:300]))
+    res.cov["arena_histories"] = n
+    res.cov["arena_calls_validated"] = lines
+    res.assumptions.append("arena binding: model trees are rendered to Markdown by the harness (one fixed rendering per node kind)")
 
 
 def check_c18(tier):
